@@ -1022,13 +1022,13 @@ func (c *Context) Exp(d, x *Decimal) (Condition, error) {
 	if t < 0 {
 		t = 0
 	}
-	var k, r Decimal
-	k.SetFinite(1, t)
+	// r = x / 10^t. Only the exponent changes: dividing at the working
+	// precision would round away digits of x that still matter for the result.
+	var r Decimal
+	r.Set(x)
+	r.Exponent -= t
 	nc := c.WithPrecision(cp)
 	nc.Rounding = RoundHalfEven
-	if _, err := nc.Quo(&r, x, &k); err != nil {
-		return 0, fmt.Errorf("Quo: %w", err)
-	}
 	var ra Decimal
 	ra.Abs(&r)
 	p := int64(cp) + int64(t) + 2
